@@ -664,6 +664,12 @@ class SyncInterpreter(BaseInterpreter[TContext, TEvent]):
         }
 
         for state in states_to_enter:
+            # 🛑 A stopped interpreter enters nothing further - `stop()` may
+            #    have been called by an action of this macrostep, by a plugin
+            #    hook, or by another thread while a blocking action ran. See
+            #    `BaseInterpreter._enter_states`.
+            if self.status == "stopped":
+                return
             logger.info("➡️ Entering state: '%s'", state.id)
             self._active_state_nodes.add(state)
             # 📨 Pass the REAL triggering event through. Synthesising an
@@ -849,9 +855,18 @@ class SyncInterpreter(BaseInterpreter[TContext, TEvent]):
             return
 
         for action_def in actions:
+            # 🛑 `stop()` landed in the middle of this macrostep: a stopped
+            #    interpreter starts no further action. See
+            #    `Interpreter._execute_actions`.
+            if self.status == "stopped":
+                return
+
             # 🔌 Notify plugins before execution
             for plugin in self._plugins:
                 plugin.on_action_execute(self, action_def)
+            # 🛑 ... and a plugin hook may be the one that called `stop()`.
+            if self.status == "stopped":
+                return
 
             # 🎭 Handle actor spawning actions
             if action_def.type.startswith(
